@@ -543,7 +543,9 @@ pub fn run(ctx: &Ctx) -> Report {
             let vts = all_vtrees(n);
             items.push((1, n, f, g, vec![], vts[(i * 11 + 2) % vts.len()].clone()));
             items.push((1, n, f, g, vec![], vts[(i * 17 + 5) % vts.len()].clone()));
-            items.push((2, n, f, g, o2, VT::Leaf(0)));
+            // decision-DNNF pools: every sequence rebuilds a builder and compiles two CNFs top-down,
+            // so depth 3 (kind 6) is kept for the first two pools of n = 3 in thorough
+            items.push((if ctx.tier == Tier::Thorough && n == 3 && i < 2 { 6 } else { 2 }, n, f, g, o2, VT::Leaf(0)));
         }
     }
     // all functions of 3 variables (4 in thorough, every 16th) under every order: pool {f} (quick) /
@@ -561,8 +563,10 @@ pub fn run(ctx: &Ctx) -> Report {
     if ctx.tier == Tier::Thorough {
         for (i, o) in permutations(4).into_iter().enumerate() {
             for start in 0..4u64 {
-                if i % 4 == 3 {
-                    items.push((4, 4, start * 8 + 3, 64, o.clone(), VT::Leaf(0)));
+                // top-down diagrams of every 1024th function of 4 variables (about 2 s of query
+                // sequences per function), three orders
+                if i % 8 == 3 {
+                    items.push((4, 4, start * 256 + 3, 1024, o.clone(), VT::Leaf(0)));
                 }
                 // all ordered query pairs on 3-member pools of every 256th function, every 4th order
                 if i % 4 == 1 {
@@ -574,6 +578,7 @@ pub fn run(ctx: &Ctx) -> Report {
     let r = par_run(ctx, &items, |_, (kind, n, f, g, o, vt)| {
         let mut r = Report::default();
         r.exhaustive = true;
+        let t0 = std::time::Instant::now();
         match kind {
             0 => explore_bdd(*f, *g, *n, o, if *n >= 4 { depth.min(2) } else { depth }, 0, &mut r),
             5 => explore_bdd(*f, *g, *n, o, 2, 0, &mut r),
@@ -612,8 +617,11 @@ pub fn run(ctx: &Ctx) -> Report {
                     k += 1;
                 }
             }
-            _ => explore_td(*f, *g, *n, o, depth.min(3), 0, &mut r),
+            6 => explore_td(*f, *g, *n, o, 3, 0, &mut r),
+            _ => explore_td(*f, *g, *n, o, 2, 0, &mut r),
         }
+        r.add_extra(&format!("busy_ms_kind{}_n{}", kind, n), t0.elapsed().as_millis() as u64);
+        r.add_extra(&format!("items_kind{}_n{}", kind, n), 1);
         r
     });
     rep.merge(r);
